@@ -565,6 +565,14 @@ func triggerData(w *World, v Violation) string {
 			}
 		}
 	}
+	// ... and the events that were pending on the disposed subscription are lost
+	if v.Class == "tail_missing" || v.Class == "order_gap_or_duplicate" {
+		for _, h := range c.Ref.Handovers {
+			if h.RID == v.RID && !h.Fresh {
+				return "resend-of-held-resource"
+			}
+		}
+	}
 	// unsend: the rid was handed to the client again by the response of a
 	// request that was already outstanding when the client dropped the rid.
 	if v.Class == "diverged" {
